@@ -34,6 +34,70 @@ def judgeSer (ext : ExtTable) (S : Schema) (root : Node) (sv : SV) (bs : Bytes) 
     if Spec.denotes ext.toDenExt S root sv v then "ok"
     else "VIOLATION Ok(bytes) decodes to a value the presentation does not denote"
 
+/-- The C02 oracle's error clause "a type-directed union choice with several equally suitable
+    branches yields Err": route the presentation through the schema the way the serializer does
+    (by name where a name pins a branch, by the priority table otherwise) and report whether some
+    type-directed choice on the way meets a `conflict` slot.  Only used to turn a model/code
+    disagreement (`Ok` from the code, `Err` from the model) into a failing input of the property;
+    it is not part of any theorem. -/
+partial def ambiguousChoice (S : Schema) (node : Node) (sv : SV) : Bool :=
+  let branchAt (vs : List Nat) (d : Nat) : Option Node := (vs[d]?).bind (S[·]?)
+  let direct (node : Node) (key : LookupKey) (k : Node → Bool) : Bool :=
+    match node with
+    | .union vs =>
+      match slotFor key (branchNodes S vs) with
+      | .conflict _ => true
+      | .some _ d => (match branchAt vs d with | some n => k n | none => false)
+      | .none => false
+    | n => k n
+  let byName (node : Node) (name : String) (k : Node → Bool) : Bool :=
+    match node with
+    | .union vs =>
+      match namedLookup name (branchNodes S vs) with
+      | some d => (match branchAt vs d with | some n => k n | none => false)
+      | none => k node
+    | n => k n
+  let fieldsIn (n : Node) (fields : List (String × SV)) : Bool :=
+    match n with
+    | .record _ fs => fields.any fun (name, v) =>
+        match fs.find? (·.1 = name) with
+        | some (_, k) => (match S[k]? with | some fn => ambiguousChoice S fn v | none => false)
+        | none => false
+    | .map k => (match S[k]? with
+        | some vn => fields.any fun (_, v) => ambiguousChoice S vn v
+        | none => false)
+    | _ => false
+  let elemsIn (n : Node) (elems : List SV) : Bool :=
+    match n with
+    | .array k => (match S[k]? with
+        | some item => elems.any (ambiguousChoice S item)
+        | none => false)
+    | _ => false
+  let leaf (key : LookupKey) : Bool := direct node key fun _ => false
+  match sv with
+  | .bool _ => leaf .boolean
+  | .int t _ => leaf (integerKey t)
+  | .f32 _ => leaf .float4
+  | .f64 _ => leaf .float8
+  | .char _ | .str _ => leaf .str
+  | .bytes _ => leaf .sliceU8
+  | .none | .unit => leaf .null
+  | .unitStruct _ => leaf .unitStruct
+  | .unitVariant _ _ _ => leaf .unitVariant
+  | .some x => ambiguousChoice S node x
+  | .newtypeStruct name x => byName node name fun n => ambiguousChoice S n x
+  | .newtypeVariant _ _ variant x => byName node variant fun n => ambiguousChoice S n x
+  | .seq _ elems | .tuple elems | .tupleStruct _ elems =>
+    direct node .seqOrTuple fun n => elemsIn n elems
+  | .tupleVariant _ _ variant elems =>
+    byName node variant fun n => direct n .seqOrTuple fun n => elemsIn n elems
+  | .map _ entries =>
+    direct node .structOrMap fun n =>
+      fieldsIn n (entries.filterMap fun (k, v) => match k with | .str s => some (s, v) | _ => none)
+  | .struct name fields => byName node name fun n => direct n .structOrMap fun n => fieldsIn n fields
+  | .structVariant _ _ variant fields =>
+    byName node variant fun n => direct n .structOrMap fun n => fieldsIn n fields
+
 /-- `ser <allowSlow> <budget|-> <schema> <sv> [ext entries]` → `ok <hex>` / `err` / `panic`. -/
 def runSer (mustSucceed : Bool) : P String := do
   let allowSlow := (← pNat) ≠ 0
@@ -55,8 +119,10 @@ def runSer (mustSucceed : Bool) : P String := do
 
 /-- `judge-ser <hex|err> <case…>`: the oracle applied to the *implementation's* outcome. -/
 def runJudgeSer : P String := do
-  let outcome ← tok
-  let _ ← tok  -- the stream tag of the embedded case
+  let outcome ← (do
+    match (← pList tok) with
+    | ["ok", h] => pure ("x" ++ h)
+    | _ => pure "err" : P String)
   let _ ← pNat
   let _ ← pOptNat
   let sm ← pSchemaMut
@@ -66,7 +132,11 @@ def runJudgeSer : P String := do
   match S[0]?, outcome.toList with
   | some root, 'x' :: h =>
     match hexToBytes h with
-    | some bs => pure s!"judged # {judgeSer ext S root sv bs}"
+    | some bs =>
+      let v := judgeSer ext S root sv bs
+      if v = "ok" && ambiguousChoice S root sv then
+        pure "judged # VIOLATION Ok(bytes) although a type-directed union choice on the way has several equally suitable branches"
+      else pure s!"judged # {v}"
     | none => pure "bad-case hex"
   | _, _ => pure "judged # ok"
 
@@ -99,6 +169,14 @@ def runDe : P String := do
     let cfg : DeConfig := { maxSeqSize := maxSeq, allowedDepth := depth }
     pure (fmtDe (deOne cfg S root depth hint (mk bs)))
 
+/-- longest sequence / map delivered anywhere in an outcome -/
+partial def longestSeq : Out → Nat
+  | .some o => longestSeq o
+  | .seq items => items.foldl (fun m o => max m (longestSeq o)) items.length
+  | .map es => es.foldl (fun m (k, v) => max m (max (longestSeq k) (longestSeq v))) es.length
+  | .variant n p => max (longestSeq n) (longestSeq p)
+  | _ => 0
+
 /-- drop the `borrowed` flags: the only difference allowed between back-ends on success -/
 partial def unborrow : Out → Out
   | .str s _ => .str s false
@@ -120,6 +198,56 @@ partial def consistentOut : Out → Out → Bool
     a.length == b.length && (a.zip b).all fun ((k1, v1), (k2, v2)) => consistentOut k1 k2 && consistentOut v1 v2
   | .some a, .some b => consistentOut a b
   | a, b => outToString (unborrow a) == outToString (unborrow b)
+
+/-- `judge-de <k> <implementation outcome> <backend> <maxSeq> <depth> <schema> <hint> <bytes>`:
+    the C03/C04 oracle applied to the *implementation's* outcome (used only to turn a model/code
+    disagreement into a failing input of the property): an `Ok` must deliver what the
+    specification's decoder reads from these bytes, leave the same bytes unread, and hold no
+    sequence longer than `max_seq_size`; with unbounded limits a valid encoding read in full by a
+    self-describing target must not be rejected. -/
+def runJudgeDe : P String := do
+  let outcome ← (do
+    let n ← pNat
+    let toks ← (List.range n).mapM fun _ => tok
+    match pDeOutcome.run toks with
+    | .ok (o, _) => pure o
+    | .error e => throw e : P (Except DeErr (Out × Nat)))
+  let _mk ← pBackend (fun b => { rest := b })
+  let maxSeq ← pNat
+  let depth ← pNat
+  let sm ← pSchemaMut
+  let hint ← pHint
+  let bs ← pBytes
+  let S := freezeNodes sm
+  match S[0]? with
+  | none => pure "judged # ok"
+  | some root =>
+    let spec := Spec.decode S (4 * bs.length + 4 * S.size + 64) root bs
+    let isAny := match hint with | .any => true | _ => false
+    let verdict := match outcome with
+      | .error .panic => "VIOLATION panic or abort"
+      | .ok (o, left) =>
+        if longestSeq o > maxSeq then "VIOLATION Ok with a sequence longer than max_seq_size"
+        else match spec with
+          | none => if isAny then "VIOLATION Ok on bytes that are not a valid encoding under the schema" else "ok"
+          | some (v, rest) =>
+            (match Spec.observe S root v with
+              | none => "ok"
+              | some e =>
+                if isAny && left ≠ rest.length then "VIOLATION Ok but a different number of bytes consumed than the encoding holds"
+                else if !consistentOut o e then "VIOLATION Ok with a value that differs from the encoded one"
+                else "ok")
+      | .error _ =>
+        match spec with
+        | some (v, _) =>
+          -- a valid encoding within the limits, which a faithful deserializer reads under this
+          -- very hint (the model does, delivering the specification's value)
+          (match Spec.observe S root v, deOne { maxSeqSize := maxSeq, allowedDepth := depth } S root depth hint (_mk bs) with
+            | some e, .ok (om, _) =>
+              if longestSeq e ≤ maxSeq && consistentOut om e then "VIOLATION a valid encoding was rejected" else "ok"
+            | _, _ => "ok")
+        | none => "ok"
+    pure s!"judged # {verdict}"
 
 /-- `skip <backend> <schema> <hint> <bytes>`: a target that ignores parts of the datum.
     Oracle (C12): when the full read succeeds, the partial read succeeds, leaves exactly the same
@@ -225,6 +353,42 @@ def runRt : P String := do
             | .error _, none => "n/a decimal outside the documented limits")
         | _ => "VIOLATION Ok(bytes) but the bytes do not decode under the specification"
       pure s!"ok {bytesToHex bs} | {fmtDe dres} # {verdict}"
+
+/-- `judge-rt <k> <implementation outcome> <allowSlow> <schema> <sv> [ext]`: the C01 oracle applied
+    to the implementation's outcome `ok <hex> | <de outcome>` / `err`. -/
+def runJudgeRt : P String := do
+  let n ← pNat
+  let toks ← (List.range n).mapM fun _ => tok
+  let _allowSlow ← pNat
+  let sm ← pSchemaMut
+  let sv ← pSV
+  let ext ← pExtEntries {}
+  let S := freezeNodes sm
+  match S[0]?, toks with
+  | none, _ => pure "judged # ok"
+  | some _, "err" :: _ => pure "judged # VIOLATION a conforming value in a branch-determining presentation was rejected"
+  | some _, "panic" :: _ | some _, "abort" :: _ => pure "judged # VIOLATION panic or abort"
+  | some root, "ok" :: h :: "|" :: rest =>
+    (match hexToBytes h.toList, pDeOutcome.run rest with
+    | some bs, .ok (dres, _) =>
+      let verdict :=
+        if !schemaNamesDistinct S then "ok" else
+        match Spec.decode S (4 * bs.length + 4 * S.size + 64) root bs with
+        | some (v, []) =>
+          if !Spec.denotes ext.toDenExt S root sv v then "VIOLATION bytes decode to a value the presentation does not denote"
+          else
+            (match dres, Spec.observe S root v with
+            | .ok (o, 0), some expected =>
+              if outToString o = outToString expected then "ok"
+              else "VIOLATION the value read back differs from the value written"
+            | .ok _, none => "ok"
+            | .ok (_, _), some _ => "VIOLATION deserialization left bytes unread"
+            | .error _, some _ => "VIOLATION the bytes written do not read back"
+            | .error _, none => "ok")
+        | _ => "VIOLATION Ok(bytes) but the bytes do not decode under the specification"
+      pure s!"judged # {verdict}"
+    | _, _ => pure "judged # ok")
+  | _, _ => pure "judged # ok"
 
 def poolToString (p : Pool) : String :=
   let bs := p.buffers.reverse.map fun b => toString b.data.length
@@ -400,6 +564,78 @@ def runGraph : P String := do
                  (match jsonR with | .error .panic => true | _ => false)]
   let verdict := if panics.any id then "VIOLATION model out of fuel" else verdictRe
   pure (" ".intercalate ([pcfS, jsonS, frz] ++ (if re = "" then [] else [re])) ++ " # " ++ verdict)
+
+/-- `judge-graph <k> <implementation outcome> <unique> <schema>`: the C09/C10/C19 oracles applied to
+    the implementation's own outcome line. -/
+def runJudgeGraph : P String := do
+  let toks ← pList tok
+  let unique := (← pNat) ≠ 0
+  let S ← pSchemaMut
+  let after (k : String) : Option String :=
+    match toks.dropWhile (· ≠ k) with | _ :: v :: _ => some v | _ => none
+  let has (k : String) : Bool := toks.contains k
+  let verdict :=
+    if toks.head? = some "panic" || toks.head? = some "abort" then "VIOLATION panic or abort"
+    else if has "freeze-ok" && !S.keysInBounds then
+      "VIOLATION freeze accepted a node graph holding a key outside the node vector"
+    else if has "freeze-ok" && S.size = 0 then "VIOLATION freeze accepted an empty node graph"
+    else if has "freeze-INCONSISTENT" then
+      "VIOLATION the frozen schema reports another JSON or fingerprint than the graph it was frozen from"
+    else if unique && has "json" && has "pcf" then
+      if has "reparse-err" then "VIOLATION the regenerated JSON does not parse back"
+      else match after "pcf", after "pcf2" with
+        | some a, some b =>
+          if a ≠ b then "VIOLATION the regenerated JSON denotes a schema with another canonical form"
+          else if has "render-CHANGED" then "VIOLATION rendering the re-parsed schema gives another document"
+          else "ok"
+        | _, _ => "VIOLATION canonical form unavailable although the JSON was regenerated"
+    else "ok"
+  pure s!"judged # {verdict}"
+
+/-- `judge-schema <k> <implementation outcome> <expect> <text> <json> <expected pcf|->`: the C07/C08
+    oracle (canonical form given by the abstract schema the document was rendered from). -/
+def runJudgeSchema : P String := do
+  let toks ← pList tok
+  let expect ← tok
+  let _text ← pBytes
+  let _j ← pJson
+  let expected ← (do
+    match (← peek) with
+    | some "-" => do let _ ← tok; pure none
+    | _ => do pure (some (← pStr)) : P (Option String))
+  let after (k : String) : Option String :=
+    match toks.dropWhile (· ≠ k) with | _ :: v :: _ => some v | _ => none
+  let verdict := match toks.head? with
+    | some "panic" | some "abort" => "VIOLATION panic or abort"
+    | some "err" => if expect = "ok" then "VIOLATION a specification-valid schema document was rejected" else "ok"
+    | some "ok" =>
+      if expect = "err" then "VIOLATION a schema document of a rejection class was accepted"
+      else (match expected, after "pcf" with
+        | some e, some p =>
+          if strHex e = p then "ok"
+          else "VIOLATION the canonical form differs from the specification's (names resolved differently, or attributes/order not preserved)"
+        | some _, none => "VIOLATION no canonical form for a specification-valid document"
+        | none, _ => "ok")
+    | _ => "ok"
+  pure s!"judged # {verdict}"
+
+/-- `judge-c11 <k> <implementation outcomes separated by ;> <case>`: all back-ends agree. -/
+def runJudgeC11 : P String := do
+  let toks ← pList tok
+  let rec split : List String → List String → List (List String) → List (List String)
+    | [], cur, acc => (cur.reverse :: acc).reverse
+    | ";" :: rest, cur, acc => split rest [] (cur.reverse :: acc)
+    | t :: rest, cur, acc => split rest (t :: cur) acc
+  let keys := (split toks [] []).map fun ts =>
+    match pDeOutcome.run ts with
+    | .ok (o, _) => c11Key o
+    | .error _ => "unparsed"
+  let verdict := match keys with
+    | [] => "ok"
+    | k :: rest =>
+      if keys.contains "panic" then "VIOLATION panic or abort"
+      else if rest.all (· == k) then "ok" else "VIOLATION slice and streamed input decode differently"
+  pure s!"judged # {verdict}"
 
 /-- `single <schema> <sv> <other> <k> bytes* [ext]`: single-object encoding. Oracle (C18): the
     message is `C3 01`, the little-endian CRC-64-AVRO (specification) of the canonical form, then
@@ -783,6 +1019,11 @@ def dispatch (line : String) : String :=
       | "ser" => some (runSer false)
       | "serv" => some (runSer true)
       | "judge-ser" => some runJudgeSer
+      | "judge-de" => some runJudgeDe
+      | "judge-rt" => some runJudgeRt
+      | "judge-graph" => some runJudgeGraph
+      | "judge-schema" => some runJudgeSchema
+      | "judge-c11" => some runJudgeC11
       | "crc" => some runCrc
       | "de" => some runDe
       | "c11" => some runC11
